@@ -95,6 +95,9 @@ func genC16(t *rapid.T) *C16Case {
 		switch {
 		case c.Type == rig.TResendRequest && rapid.Bool().Draw(t, "ownField"):
 			m.Fields[0] = rig.F(rig.TagBeginSeqNo, "x1")
+		case c.Type == rig.TLogout && rapid.Bool().Draw(t, "ownField"):
+			// the one numeric field of the Logout's own body (EncodedTextLen)
+			m.Fields = append(m.Fields, rig.F("354", rapid.SampledFrom([]string{"abc", "3x", "-"}).Draw(t, "badEncLen")), rig.F("355", "xyz"))
 		case c.Type == rig.TLogon && rapid.Bool().Draw(t, "ownField"):
 			if rapid.Bool().Draw(t, "ownCounter") {
 				// the count field of the Logon's own repeating group (NoMsgTypes)
